@@ -275,6 +275,17 @@ pub fn run(tier: Tier, replay: Option<&J>) -> i32 {
             items.push((s.clone(), l.clone(), p.clone(), p.len() <= 70_000));
         }
     }
+    // (4) multi-MiB runs of one byte: the most compressible inputs there are (deflate reaches about 1030:1),
+    // at every deflate level and the light default settings
+    for s in &all {
+        let light = s.codec_name == "deflate" || (s.codec_name == "snappy") || (s.codec_name == "zstandard" && s.level <= 3 && defaults.iter().any(|d| d.codec_name == s.codec_name && d.level == s.level));
+        if !light {
+            continue;
+        }
+        for n in [(4usize << 20) + 1, 8 << 20] {
+            items.push((s.clone(), format!("zeros/{n}"), vec![0u8; n], false));
+        }
+    }
     let items: Vec<_> = items.into_iter().filter(|(s, l, _, _)| want(s, l)).collect();
     if std::env::var("VERIF_C15_TIMING").is_ok() {
         // diagnostic: wall time per (codec, level bucket)
